@@ -258,19 +258,21 @@ package entities
 //@   loop 1 invariant sum: length == sumWire(elements, $i) && 0 <= length
 //@   loop 1 decreases len(elements) - $i
 //@
+//@ // The list effects (count, new slot, kept slots) need only the shape of the record; the length and the representation
+//@ // invariant are stated for a well-formed record and element. (The aggregation process appends elements that are not
+//@ // wfElem: dateTimeSeconds information elements held in Unsigned32InfoElement objects.)
 //@ func (d *dataRecord) AddInfoElement(element) (err)
-//@   requires inv:  recInv(d)
-//@   requires wf:   wfElem(element)
+//@   requires shape: d != nil && d.fieldCount <= len(d.orderedElementList) && !isnil(element) && ie(element) != nil
 //@   requires cnt:  d.fieldCount < 65535
 //@   ensures  err:  err == nil
 //@   ensures  cnt:  d.fieldCount == old(d.fieldCount) + 1
 //@   ensures  new:  d.orderedElementList[old(d.fieldCount)] == element
 //@   ensures  keep: forall j in [0, old(d.fieldCount)): d.orderedElementList[j] == old(d.orderedElementList[j])
 //@   ensures  lenl: len(d.orderedElementList) == (old(len(d.orderedElementList)) <= old(d.fieldCount) ? old(len(d.orderedElementList)) + 1 : old(len(d.orderedElementList)))
-//@   ensures  len:  d.len == old(d.len) + (d.isDecoding ? 0 : wireLen(element))
+//@   ensures  len:  old(recInv(d)) && wfElem(element) ==> d.len == old(d.len) + (d.isDecoding ? 0 : wireLen(element))
 //@   ensures  listarr: arr(d.orderedElementList) == old(arr(d.orderedElementList)) || fresh(d.orderedElementList)
 //@   ensures  same: d.templateID == old(d.templateID) && d.isDecoding == old(d.isDecoding) && d.buffer == old(d.buffer)
-//@   ensures  inv:  recInv(d)
+//@   ensures  inv:  old(recInv(d)) && wfElem(element) ==> recInv(d)
 //@   modifies d.len, d.fieldCount, d.orderedElementList, d.orderedElementList[*]
 
 // ---------------------------------------------------------------------------
